@@ -17,16 +17,17 @@ func init() {
 	for _, q := range []int64{1, 2, 3} {
 		for _, until := range []int64{1, 0} {
 			add(&thorough, q, until, 1, 3, 0, 2)
-			add(&thorough, q, until, 2, 2, 1, 3*5+4)
-			add(&thorough, q, until, 3, 1, 1, 2*25+1*5+0)
 		}
 	}
+	add(&thorough, 1, 1, 2, 2, 1, 3*5+4)
+	add(&thorough, 2, 1, 2, 2, 1, 1*5+0)
+	add(&thorough, 3, 0, 2, 2, 1, 3*5+4)
 	Specs["C06"] = &Spec{
 		Jobs: jobsBy(quick, thorough), Labels: labelFilter("c06-"),
 		MustReach: []string{"c06-close-within-grace", "c06-done"},
 		Bounds: map[string]string{
 			"quick":    "exactly two completed writes (1 writer x 2, 2 writers x 1 - the loss needs the failing CAS of a second accepted write) and one write, queue sizes 1-2, both wait modes, Close from the harness thread",
-			"thorough": "three writes (1x3, 2+1, 3x1), queue sizes 1-3",
+			"thorough": "three writes (1 writer x 3 for queue sizes 1-3 in both modes; 2+1 writes on three configurations; 3 writers x 1 write exceeds 6*10^5 states and is outside)",
 		},
 		Outside:     "the xhttp 'Connection: close' path reaches Close through ctx.Close from a handler (same Channel.Close code); a sender stalled beyond the 1 s grace on bounded-wait channels is excluded by the statement (the oracle uses the closer's accumulated sleep)",
 		Assumptions: Specs["C01"].Assumptions,
